@@ -168,6 +168,10 @@ def make_case(ctx, g):
                  (Identifier("http://x/y"), Literal("http://x/y", QualifiedName(Namespace("xsd", XSDU), "anyURI")))]
         t = g.dt()
         pairs.append((t, Literal(t.isoformat(), QualifiedName(Namespace("xsd", XSDU), "dateTime"))))
+        # integers no binary double can hold: the value must arrive digit for digit
+        big = g.choice([2 ** 53 + 1, 2 ** 63 - 1, -(2 ** 63) - 1, 10 ** 30 + 7, g.rng.getrandbits(90) | 1, -(g.rng.getrandbits(70) | 1)])
+        pairs.append((big, Literal(str(big), QualifiedName(Namespace("xsd", XSDU), g.choice(["long", "int"])))))
+        pairs.append((big, Literal(big, QualifiedName(Namespace("xsd", XSDU), "long"))))
         direct, lit = g.choice(pairs)
         name = PROV["value"]
         h1, e1 = w.new_record(c, "Entity", QualifiedName(Namespace("ex", "http://example.org/"), "pd"), [(name, direct)])
